@@ -19,7 +19,7 @@ CONF = {
                 rule="one evaluation = one table-indexed instruction (const/name/local/free/compare) whose canonical argval from xdis "
                      "is compared with V's dis argval at the same offset; distinct = (version, opname, operand class, big-table flag); "
                      "non-trivial = operand != 0"),
-    "C04": dict(must=["t_opcode_zoo", "t_opcode_zoo2", "t_async", "t_control", "t_try_nest", "t_match", "t_long_body", "t_comp", "t_long_loop", "t_except_star"],
+    "C04": dict(must=["t_big_try", "t_opcode_zoo", "t_opcode_zoo2", "t_async", "t_control", "t_try_nest", "t_match", "t_long_body", "t_comp", "t_long_loop", "t_except_star"],
                 versions=ALLV, sections=["dis", "labels"], focus=["loops", "try", "async", "match", "long_jump", "generator", "try_nest"],
                 quick=(40, 40), thorough=(900, 300), max_code_quick=6000, max_code_thorough=10000, min_eval=200,
                 rule="one evaluation = one code object: set(opc.findlabels) vs V's dis.findlabels, every jump argval vs V's, "
@@ -31,7 +31,7 @@ CONF = {
                 rule="one evaluation = one code object: list(opc.findlinestarts(co)) vs V's dis.findlinestarts, starts_line of the "
                      "dup_lines=False stream exact and of the dup_lines=True stream a consistent superset, plus offset2line queries "
                      "against a linear scan; distinct = SHA-1 of (line starts, firstlineno); non-trivial = >= 2 line starts"),
-    "C17": dict(must=["t_opcode_zoo", "t_opcode_zoo2", "t_long_columns", "t_line_gaps", "t_backward_lines", "t_long_loop", "t_try_nest", "t_except_star", "t_async", "t_control"],
+    "C17": dict(must=["t_big_try", "t_opcode_zoo", "t_opcode_zoo2", "t_long_columns", "t_line_gaps", "t_backward_lines", "t_long_loop", "t_try_nest", "t_except_star", "t_async", "t_control"],
                 versions=[(3, 11), (3, 12), (3, 13)], sections=["pos"], focus=["try", "try_nest", "long_columns", "line_gaps",
                                                                                 "backward_lines", "except_star", "async"],
                 quick=(80, 60), thorough=(2500, 600), max_code_quick=1 << 30, max_code_thorough=1 << 30, min_eval=200,
